@@ -559,45 +559,52 @@ def loadDirs (s : FS FileNode Ptr Store) : Nat → List String → Option (FS Fi
       | some (Node.dir k) => loadDirs s k rest
       | some (Node.file _) => none
 
+/-- `createFileAndParents`, last component: the file named `base` in directory `d` (created empty
+if missing); a directory of that name is an error. -/
+def loadFile (hash : Bytes → Loc) (s : FS FileNode Ptr Store) (d : Nat) (base : String) :
+    Option (FS FileNode Ptr Store × Nat) :=
+  match child s.ents d base with
+  | none =>
+    (match addNode (concImpl hash 1) s d base false with
+     | (s', Node.file f) => some (s', f)
+     | _ => none)
+  | some (Node.file f) => some (s, f)
+  | some (Node.dir _) => none
+
+/-- One file token `offset:length:name` of a stream whose blocks are `segs`; the state carries the
+(segIdx, pos) cursor of `loadManifest` across the tokens of the stream. -/
+def loadTok (hash : Bytes → Loc) (dirname : String) (segs : List LoadSeg)
+    (acc : Option (FS FileNode Ptr Store × Nat × Nat)) (tok : Nat × Nat × String) :
+    Option (FS FileNode Ptr Store × Nat × Nat) :=
+  match acc with
+  | none => none
+  | some (s, segIdx, pos) =>
+    let comps := splitPath (dirname ++ "/" ++ tok.2.2)
+    let base := comps.getLast?.getD ""
+    match loadDirs s 0 comps.dropLast with
+    | none => none
+    | some (s, d) =>
+      if base == "." then
+        if tok.2.1 == 0 then some (s, segIdx, pos) else none
+      else if special base then none
+      else
+        match loadFile hash s d base with
+        | none => none
+        | some (s, f) =>
+          let cur : Nat × Nat := if pos > tok.1 then (0, 0) else (segIdx, pos)
+          let r := loadToken segs tok.1 tok.2.1 (segs.length + 1) cur.1 cur.2 []
+          if r.2.1 == segs.length && r.2.2 < tok.1 + tok.2.1 then none
+          else match s.files[f]? with
+            | none => none
+            | some (_, fn) =>
+              some (setFile s f { fn with segs := fn.segs ++ r.1, size := fn.size + sumLen r.1 }, r.2.1, r.2.2)
+
 def loadStream (hash : Bytes → Loc) (s : FS FileNode Ptr Store) (dirname : String) (blocks : List Bytes)
     (toks : List (Nat × Nat × String)) : Option (FS FileNode Ptr Store) :=
   let segs : List LoadSeg := blocks.map (fun b => ⟨hash b, b.length⟩)
   let st := blocks.foldl (fun st b => Store.put hash st b) s.world
-  let go := fun (acc : Option (FS FileNode Ptr Store × Nat × Nat)) (tok : Nat × Nat × String) =>
-    match acc with
-    | none => none
-    | some (s, segIdx, pos) =>
-      let (offset, length, name) := tok
-      let comps := splitPath (dirname ++ "/" ++ name)
-      let base := comps.getLast?.getD ""
-      match loadDirs s 0 comps.dropLast with
-      | none => none
-      | some (s, d) =>
-        if base == "." then
-          if length == 0 then some (s, segIdx, pos) else none
-        else if special base then none
-        else
-          let fileOf : Option (FS FileNode Ptr Store × Nat) :=
-            match child s.ents d base with
-            | none =>
-              (match addNode (concImpl hash 1) s d base false with
-               | (s', Node.file f) => some (s', f)
-               | _ => none)
-            | some (Node.file f) => some (s, f)
-            | some (Node.dir _) => none
-          match fileOf with
-          | none => none
-          | some (s, f) =>
-            let (segIdx, pos) := if pos > offset then (0, 0) else (segIdx, pos)
-            let (newSegs, segIdx', pos') := loadToken segs offset length (segs.length + 1) segIdx pos []
-            if segIdx' == segs.length && pos' < offset + length then none
-            else match s.files[f]? with
-              | none => none
-              | some (_, fn) =>
-                some (setFile s f { fn with segs := fn.segs ++ newSegs, size := fn.size + sumLen newSegs },
-                      segIdx', pos')
   if toks.isEmpty || blocks.isEmpty || dirname == "" then none else
-  (toks.foldl go (some ({ s with world := st }, 0, 0))).map (·.1)
+  (toks.foldl (loadTok hash dirname segs) (some ({ s with world := st }, 0, 0))).map (·.1)
 
 def loadManifest (hash : Bytes → Loc) (streams : List (String × List Bytes × List (Nat × Nat × String))) :
     Option (FS FileNode Ptr Store) :=
